@@ -497,11 +497,99 @@ pub fn exec(f: &[&str], res: &mut ImplResult) -> Option<String> {
                 }
             }
         }
+        Some("op") if f.len() == 4 => {
+            // one crashing amd64 instruction through the whole pipeline (oracle-only)
+            res.tags.push("kind:op".into());
+            let (Some(code), Some(rsp)) = (kvf(f[2], "code").and_then(unhex), kvf(f[3], "rsp").and_then(|s| s.parse::<u64>().ok())) else {
+                res.out = "bad-op".into();
+                return None;
+            };
+            match run_op(&code, rsp) {
+                Err(msg) => {
+                    res.out = "PANIC".into();
+                    res.oracle.push(("process-panics".into(), format!("instruction {}: {msg}", hex(&code))));
+                }
+                Ok(decoded) => {
+                    res.nontrivial = decoded;
+                    res.out = if decoded { "decoded".into() } else { "undecoded".into() };
+                }
+            }
+            None
+        }
+        Some("opscan") if f.len() == 5 => {
+            // a sweep over ModRM bytes for one (prefix, opcode map, opcode): oracle-only
+            res.tags.push("kind:opscan".into());
+            let parsed = (|| {
+                let pfx = kvf(f[2], "pfx")?;
+                let pfx = if pfx == "-" { vec![] } else { unhex(pfx)? };
+                let map = kvf(f[3], "map")?;
+                let op: u8 = kvf(f[4], "op")?.parse().ok()?;
+                Some((pfx, map.to_string(), op))
+            })();
+            let Some((pfx, map, op)) = parsed else {
+                res.out = "bad-op".into();
+                return None;
+            };
+            let mut decoded = 0;
+            let mut total = 0;
+            for code in opscan_codes(&pfx, &map, op) {
+                total += 1;
+                match run_op(&code, 4) {
+                    Err(msg) => {
+                        res.oracle.push(("process-panics".into(), format!("process op code:{} rsp:4 : {msg}", hex(&code))));
+                        break;
+                    }
+                    Ok(true) => decoded += 1,
+                    Ok(false) => {}
+                }
+            }
+            res.nontrivial = decoded > 0;
+            res.out = format!("scanned:{total} decoded:{decoded}");
+            None
+        }
         _ => {
             res.out = "bad-op".into();
             None
         }
     }
+}
+
+/// the instruction variants one `opscan` case covers
+pub fn opscan_codes(pfx: &[u8], map: &str, op: u8) -> Vec<Vec<u8>> {
+    let mut out = vec![];
+    for md_ in 0..4u8 {
+        for reg in 0..8u8 {
+            for rm in [0u8, 3, 4, 5] {
+                let mut c = pfx.to_vec();
+                if map == "0f" {
+                    c.push(0x0f);
+                }
+                c.push(op);
+                c.push((md_ << 6) | (reg << 3) | rm);
+                // SIB (base=rbx/rbp, index=rcx, scale 8) + displacement / immediate bytes
+                c.extend_from_slice(&[if reg % 2 == 0 { 0xcb } else { 0xcd }, 0xf8, 0xff, 0xff, 0x7f, 0x10, 0x20, 0x30, 0x40]);
+                out.push(c);
+            }
+        }
+    }
+    out
+}
+
+/// process a dump whose crashing instruction is `code`; Ok(true) if op analysis produced an instruction string
+fn run_op(code: &[u8], rsp: u64) -> Result<bool, String> {
+    let Some(bytes) = mini_dump(code, rsp, 0xffff_ffff_ffff_fff8, &[(0xffff_ffff_ffff_e000, 0x1000, false)], None, true) else {
+        return Ok(false);
+    };
+    let state = process_bytes(&bytes)?;
+    let Some(state) = state else { return Ok(false) };
+    // the reports must render as well
+    catch(|| {
+        let mut v = vec![];
+        let _ = state.print(&mut v);
+        v.clear();
+        let _ = state.print_json(&mut v, false);
+    })?;
+    Ok(state.exception_info.as_ref().is_some_and(|e| e.instruction_str.is_some()))
 }
 
 pub fn generate(tier: Tier, rng: &mut Rng, emit: &mut dyn FnMut(String)) {
@@ -622,5 +710,20 @@ pub fn generate(tier: Tier, rng: &mut Rng, emit: &mut dyn FnMut(String)) {
         }
         regions.dedup();
         emit(format!("process guardcase kind:{kind} regions:{} addr:{addr}", regions.iter().map(|r| format!("{}:{}:{}", r.0, r.1, r.2 as u8)).collect::<Vec<_>>().join(",")));
+    }
+    // ---- crashing-instruction sweep (oracle-only): every opcode of the one-byte and 0F maps
+    let pfxs: &[&str] = if quick { &["-", "48"] } else { &["-", "48", "66", "f3", "f2", "67", "41", "4c", "f0", "64"] };
+    for pfx in pfxs {
+        for map in ["1", "0f"] {
+            for op in 0..=255u32 {
+                if quick && *pfx == "48" && op % 2 == 1 {
+                    continue; // half of the REX.W sweep in the quick tier
+                }
+                emit(format!("process opscan pfx:{pfx} map:{map} op:{op}"));
+            }
+        }
+    }
+    for _ in 0..(if quick { 200 } else { 4000 }) {
+        emit(format!("process op code:{} rsp:{}", hex(&pg::gen_code(rng)), *rng.pick(&[0u64, 4, 8, 0x7ffd_0000_0010, u64::MAX])));
     }
 }
